@@ -75,24 +75,17 @@ class Some:
 
 
 def parse_sx(s: str):
-    """S-expression text -> nested lists of str atoms."""
-    toks = re.findall(r'\(|\)|[^\s()]+', s)
-    pos = 0
-
-    def one():
-        nonlocal pos
-        t = toks[pos]
-        pos += 1
+    """S-expression text -> nested lists of str atoms (iterative: replies can nest deeply)."""
+    stack = [[]]
+    for t in re.findall(r'\(|\)|[^\s()]+', s):
         if t == '(':
-            out = []
-            while toks[pos] != ')':
-                out.append(one())
-            pos += 1
-            return out
-        return t
-
-    r = one()
-    return r
+            stack.append([])
+        elif t == ')':
+            top = stack.pop()
+            stack[-1].append(top)
+        else:
+            stack[-1].append(t)
+    return stack[0][0]
 
 
 def sx_str(x) -> str:
@@ -490,3 +483,76 @@ def shrink_string(s: str, bad) -> str:
                 changed = True
                 break
     return s
+
+
+# --------------------------------------------------------------------------- sharded execution
+class Collector:
+    """Same bookkeeping interface as Check, used inside worker processes and merged afterwards."""
+
+    def __init__(self, pid, seed, tier, shard):
+        self.pid = pid
+        self.seed = seed
+        self.tier = tier
+        self.shard = shard
+        self.rng = random.Random(f'{pid}-{seed}-{shard}')
+        self.evaluations = 0
+        self.nontrivial = set()
+        self.dist = {}
+        self.samples = []
+        self.viol = []
+
+    @property
+    def quick(self):
+        return self.tier == 'quick'
+
+    def count(self, key, n=1):
+        self.dist[key] = self.dist.get(key, 0) + n
+
+    def case(self, fingerprint, nontrivial=True):
+        self.evaluations += 1
+        if nontrivial:
+            if not isinstance(fingerprint, (str, bytes)):
+                fingerprint = json.dumps(fingerprint, sort_keys=True, default=str)
+            self.nontrivial.add(hashlib.blake2b(fingerprint.encode() if isinstance(fingerprint, str) else fingerprint,
+                                                digest_size=8).digest())
+
+    def sample(self, obj, limit=3):
+        if len(self.samples) < limit:
+            self.samples.append(obj)
+
+    def violation(self, signature, what, replay, no_input=False):
+        self.viol.append((signature, what, replay, no_input))
+
+
+def _shard_entry(args):
+    fn, pid, seed, tier, shard, extra = args
+    col = Collector(pid, seed, tier, shard)
+    try:
+        fn(col, shard, *extra)
+    except Exception as e:  # noqa
+        import traceback
+        col.viol.append((f'harness-error:{type(e).__name__}', f'worker failed: {e}',
+                         {'traceback': traceback.format_exc()[-3000:]}, True))
+    return col
+
+
+def run_sharded(chk: 'Check', fn, nshards: int, extra=(), procs: int = 14):
+    """fn(col, shard_index, *extra) runs in a forked worker; results are merged into chk."""
+    import multiprocessing as mp
+    ctx = mp.get_context('fork')
+    args = [(fn, chk.pid, chk.seed, chk.tier, i, extra) for i in range(nshards)]
+    if nshards == 1 or procs == 1:
+        cols = [_shard_entry(a) for a in args]
+    else:
+        with ctx.Pool(min(procs, nshards)) as pool:
+            cols = pool.map(_shard_entry, args, chunksize=1)
+    for col in cols:
+        chk.evaluations += col.evaluations
+        chk.nontrivial |= col.nontrivial
+        for k, v in col.dist.items():
+            chk.dist[k] = chk.dist.get(k, 0) + v
+        for s in col.samples:
+            chk.sample(s)
+        for (sig, what, replay, no_input) in col.viol:
+            chk.violation(sig, what, replay, no_input)
+    return cols
